@@ -74,7 +74,7 @@ def triage(b, args, env, r, raw_cmd=None):
 
 def schedules(rng, tier, n):
     out = []
-    primes = [3, 5, 7, 11, 13, 17, 23, 31, 47, 61, 101, 211]
+    primes = [47, 61, 83, 101, 151, 211, 307, 503]   # start-up alone is ~6e5 allocations
     for i in range(n):
         k = rng.random()
         if k < 0.4:
@@ -84,7 +84,7 @@ def schedules(rng, tier, n):
             p = rng.choice(primes)
             out.append("every:%d:%d" % (p, rng.randrange(p)))
         else:
-            out.append("rand:%d:%d" % (rng.randrange(1, 10 ** 6), rng.choice([5, 20, 60, 150])))
+            out.append("rand:%d:%d" % (rng.randrange(1, 10 ** 6), rng.choice([2, 5, 10, 20])))
     return out
 
 
@@ -172,8 +172,10 @@ def check(rep, tier, seed):
     rep.sample({"program": tests[0][0], "args": tests[0][1], "schedules": scheds,
                 "reference_summary": summary_of(ref[tests[0][0]].out) if tests[0][0] in ref else None})
 
-    # ---- (b) generated case files with model expectations under random schedules ---------------------
-    per_mod = 1500 if tier == "quick" else 20000
+    # ---- (b) generated case files under random schedules, differential against the un-injected run ----
+    # (the same case file is run with and without injection; per-case observations must be identical --
+    #  "the observable result of any program is independent of the collection schedule")
+    per_mod = 1200 if tier == "quick" else 20000
     for mname in WORKLOAD_MODULES:
         try:
             mod = importlib.import_module("vf.props." + mname)
@@ -182,7 +184,7 @@ def check(rep, tier, seed):
         wl = getattr(mod, "gc_workload", None)
         if wl is None:
             continue
-        w = wl(random.Random(seed * 31 + hash(mname) % 1000), per_mod)
+        w = wl(random.Random(seed * 31 + sum(map(ord, mname))), per_mod)
         cases = w["cases"]
         batch = w.get("batch", 100)
         batches = [cases[i:i + batch] for i in range(0, len(cases), batch)]
@@ -191,13 +193,15 @@ def check(rep, tier, seed):
         def run_batch(ib, w=w):
             i, bt = ib
             variant = "hooks" if (tier == "quick" or i % 3) else "asan-rz"
+            env0 = {"CHIBI_VERIF_HEAPCHECK": "1"}
             env = {"CHIBI_VERIF_HEAPCHECK": hc, "CHIBI_VERIF_GC": scs[i]}
+            res0, _ = C.run_file(builds["hooks"], w["imports"], w.get("header", ""), bt, env_extra=env0,
+                                 timeout=w.get("timeout", 180), heap=w.get("heap"))
             res, procs = C.run_file(builds[variant], w["imports"], w.get("header", ""), bt, env_extra=env,
-                                    timeout=w.get("timeout", 180), heap=w.get("heap"))
-            return i, bt, res, procs, variant
+                                    timeout=w.get("timeout", 180) * 3, heap=w.get("heap"))
+            return i, bt, res0, res, procs, variant
 
-        shadow = report.Report(rep.prop, tier, seed)       # the model's own verdicts, re-labelled below
-        for i, bt, res, procs, variant in R.pmap(run_batch, list(enumerate(batches))):
+        for i, bt, res0, res, procs, variant in R.pmap(run_batch, list(enumerate(batches))):
             for p in procs:
                 account(p)
                 for l in p.log_lines("HEAPCHECK-FAIL"):
@@ -205,28 +209,26 @@ def check(rep, tier, seed):
                                    "mode": l.split()[1].replace("kind=", "")}, {"line": l, "schedule": scs[i]})
             for cid, form in bt:
                 rep.case(("generated", mname, scs[i].split(":")[0], w["classify"](cid) if "classify" in w else None))
-                cr = res.get(cid)
-                if cr is not None and cr.status == "crash":
+                cr, c0 = res.get(cid), res0.get(cid)
+                wit = {"form": form[:1500], "schedule": scs[i], "variant": variant}
+                if cr is None or c0 is None or c0.status != "ok":
+                    rep.inconc("reference-run-no-result", cid)
+                    continue
+                if cr.status == "timeout" or cr.status == "missing":
+                    rep.inconc("timeout-under-injection", cid)
+                    continue
+                if cr.status == "crash":
                     d = cr.detail or {}
                     san = d.get("sanitizer")
                     sig = {"check": "generated", "workload": mname, "how": "asan" if san else "crash",
-                           "frames": first_frames(san["frames"]) if san else None}
-                    rep.violation(sig, {"form": form[:1500], "schedule": scs[i], "variant": variant, "detail": d})
+                           "frames": first_frames(san["frames"]) if san else None,
+                           "op": w["classify"](cid) if "classify" in w else None}
+                    rep.violation(sig, dict(wit, detail=d))
                     continue
-                n0 = len(shadow.violations)
-                w["judge"](shadow, cid, cr)
-                for sig, wit in shadow.violations[n0:]:
-                    # a model mismatch that is a known finding of the source property is not a GC verdict
-                    if w.get("known") and w["known"](sig):
-                        rep.count("model_mismatches_known_elsewhere")
-                        continue
-                    sig2 = dict(sig)
-                    sig2.update(check="generated", workload=mname, how="wrong-under-injection")
-                    wit2 = dict(wit) if isinstance(wit, dict) else {"witness": wit}
-                    wit2.update(schedule=scs[i], variant=variant)
-                    rep.violation(sig2, wit2)
-        for r_, d_ in shadow.inconclusive:
-            rep.inconc(r_, d_)
+                if cr.text.strip() != c0.text.strip():
+                    rep.violation({"check": "generated", "workload": mname, "how": "result-depends-on-gc-schedule",
+                                   "op": w["classify"](cid) if "classify" in w else None},
+                                  dict(wit, without_injection=c0.text.strip()[:600], with_injection=cr.text.strip()[:600]))
         if cases:
             rep.sample({"workload": mname, "form": cases[0][1][:300], "schedules": scs[:3]})
     rep.extra.update(allocations_seen=totals["allocs"], forced_collections=totals["forced"],
